@@ -80,6 +80,7 @@ mutual
     | .list [.atom "return", e] => do some (.ret (some (← toExpr e)))
     | .list [.atom "throw", e] => do some (.throw_ (← toExpr e))
     | .list [.atom "try", b, p, c] => do some (.try_ (← toExpr b) (← toPat p) (← toExpr c))
+    | .list (.atom "switch" :: sc :: arms) => do some (.switch_ (← toExpr sc) (← arms.mapM toArm))
     | .list [.atom "eval", e] => do some (.evalSrc (← toExpr e))
     | .list [.atom "freeze", e] => do some (.freeze (← toExpr e))
     | _ => none
@@ -96,6 +97,9 @@ mutual
     | .list [.atom "yield", e, i] => do some (.yield (← toExpr e) (some (← toExpr i)))
     | .list [.atom "yielditem", k, v] => do some (.yieldItem (← toExpr k) (← toExpr v) none)
     | .list [.atom "yielditem", k, v, i] => do some (.yieldItem (← toExpr k) (← toExpr v) (some (← toExpr i)))
+    | _ => none
+  partial def toArm : Sexp → Option SwitchArm
+    | .list [.atom "arm", p, b] => do some (.mk (← toPat p) (← toExpr b))
     | _ => none
   partial def toParam : Sexp → Option Param
     | .list [.atom "param", .atom x, .atom s] => some (.mk x none (s == "1"))
